@@ -55,42 +55,49 @@ HARNESS_BIN = "c13"
 NCASES = {"quick": 12000, "thorough": 200000}
 CASE_TIMEOUT = {"quick": 30, "thorough": 120}
 
-LEVEL_TEXT = ("Machine-checked Coq theorems (81 pinned) at three levels. (1) Value level, every word size >= 2, every modulus >= 1, all "
+LEVEL_TEXT = ("Machine-checked Coq theorems (99 pinned) at three levels. (1) Value level, every word size >= 2, every modulus >= 1, all "
               "integers: construction of the ring, reduce for every size class and sign, + - * neg dbl sqr ==, the two exponentiation "
               "algorithms (binary method word by word; sliding window with a table of odd powers - proved generically for any carrier, "
-              "every window length), inverse, division, ring identity and the num_modular::Reducer implementation preserve the "
-              "representation invariant raw = (x mod m) << shift and return the residue the mathematics demands; num-modular's "
-              "div_rem_1by1 / 2by1 / 2by2 / 3by2 / 4by2 and invm are transcriptions proved exact (C13_nm_*: no hypothesis on an external "
-              "function for reduce, + - * neg dbl sqr ==, pow in every ring and inv in the one- and two-word rings); the one- and two-word "
-              "rings reduce a multi-word operand on its WORDS (fast_rem_by_normalized_word / _dword as proved by C02). (2) Word level for the "
-              "multi-word ring (ReducedLarge = word list of the modulus' length), every word size >= 8, NO contract of any kernel left: "
-              "ConstLargeDivisor::new (normalisation shift, no carry lost), rem_large (shift, optional carry word, division only for long "
-              "buffers), rem_repr, from_ubig, IntoRing for UBig / IBig (negative numbers: canonical representative), residue, modulus, "
+              "every window length; exponent 0 and modulus 1 included), inverse, division, ring identity and the num_modular::Reducer "
+              "implementation preserve the representation invariant raw = (x mod m) << shift and return the residue the mathematics "
+              "demands; num-modular's div_rem_1by1 / 2by1 / 2by2 / 3by2 / 4by2 and invm are transcriptions proved exact (C13_nm_*). "
+              "(2) Word level for the multi-word ring (ReducedLarge = word list of the modulus' length), every word size >= 8, NO contract "
+              "of any kernel left: ConstLargeDivisor::new, rem_large, rem_repr, from_ubig, IntoRing for UBig / IBig, residue, modulus, "
               "Reducer::transform, is_valid, add / sub / dbl / neg with their carry and borrow flags and debug assertions, mul_normalized / "
-              "sqr_normalized / mul_in_place / the sliding-window pow - with C01's as-is mul::multiply / sqr::sqr, C02's as-is "
-              "div::div_rem_in_place, num-modular's div_rem_3by2 as transcribed and C01's add_signed_mul as the subtract-multiply kernel "
-              "(C13_words_*_src); inv_large on word lists (unshift, the 0 / 1 / 2 / n word dispatch, the `g_len == 1 && raw[0] == 1` test on "
-              "the words of g, zero fill, shift back, is_valid, negate) returns Some(inverse) exactly when gcd = 1; gcd_ext_word and "
-              "gcd_ext_dword are transcribed (division, C12's as-is primitive extended Euclid - proved here to return cofactors of opposite "
-              "signs bounded by the other operand over the gcd - and the rebuild |b| = q|t| + |s| with the sign rule of the source) and "
-              "proved to meet the contract with no carry leaving the buffer, so the only premise left is the contract of gcd_ext_in_place "
-              "(Lehmer) on values of three and more words (C13_words_inv_lehmer_only, C13_externals_lehmer_only). (3) Both extracted 64-bit models the oracle runs - the value-level one (C13_run_*) and the one "
-              "on word lists with the real kernels / num-modular transcribed (C13_hrun_*) - are proved equal to the specification for all "
-              "inputs. Regenerated from the Rust sources on every run and proved over the generated definitions (C13_gen_*): the "
-              "window-length selection of large::pow (the model RUNS the regenerated function; its range [1, WORD_BITS) is proved for whatever "
-              "cost function the source has; table of window lengths for bit lengths 2..4096), table size and first bit, the comparison "
-              "methods of add_in_place / dbl_in_place / mul_normalized / sqr_normalized / is_valid / check, the long-product switches, the "
-              "units, and the list of primitive types with an IntoRing impl (each returns the reduced form of every value of its type).")
-LEVEL_NOTE = ("Trusted: Coq kernel, extraction (FastZ.v directives), zarith, harness. Still by contract only: gcd::gcd_ext_in_place "
-              "(Lehmer's algorithm on values of three and more words; C12 has a value-level as-is model but no proof yet) behind inv / "
-              "division of the multi-word ring - the oracle runs an exact instance that meets the contract; the transcriptions of "
-              "gcd_ext_word / gcd_ext_dword are proved but not executed by the oracle (their fuel bound is linear in the operand). At value level only (no word "
-              "lists): the Reducer impl's reduce_once / reduce_negate (sub_large on UBig), clone_from. Primitive machine arithmetic (u128 "
-              "widening multiplication, %, shifts) is taken at its mathematical meaning. Compared only (not proved): that the Rust code is "
-              "what the models transcribe - 12000 generated + corpus cases per run against the specification and against BOTH as-is "
-              "instances (asis=same needs both; path=words / path=nm says which half of the second instance ran); fragments the translator "
-              "cannot parse fall back to this comparison alone.")
-TECHNIQUE = "Coq proof of value-level and word-level as-is models (representation invariant, refinement, generic windowed exponentiation, num-modular / C01 / C02 kernels transcribed, fragments regenerated from the source) + extracted-spec correspondence run against two as-is instances"
+              "sqr_normalized / mul_in_place / the sliding-window pow with C01's as-is multiply / sqr, C02's as-is div_rem_in_place, "
+              "num-modular's div_rem_3by2 and C01's add_signed_mul (C13_words_*_src); inv_large on word lists returns Some(inverse) exactly "
+              "when gcd = 1; round 4: the EXTENDED GCD behind inv has no contract left either - gcd_ext_word / gcd_ext_dword transcribed "
+              "(now with a proved logarithmic fuel, so the oracle runs them) and gcd::lehmer::gcd_ext_in_place = C12's as-is model "
+              "(lehmer_guess / lehmer_guess_dword on the aligned leading words, Lehmer and Euclidean steps, the single-word ending with "
+              "the primitive extended gcd and the sign line), for which C12 proves partial correctness (g = gcd, lhs | g - b rhs IF it "
+              "returns) and this check proves TOTALITY for every word size and every 0 < rhs < lhs: no checked word operation of the "
+              "guess overflows, no guessed step goes negative, the cofactors keep t1 x + t0 y = lhs so they fit the lhs_len + 1 word "
+              "buffers, the final `t0 += q t1` fits its x.len() + t1_len words and cuts nothing off although the source's second-half "
+              "test (it subtracts c where Jebelean's condition has b) lets a step come out in the order x' <= y' with the cofactors "
+              "swapped into t0 > t1, |b| < lhs, fuel logarithmic in lhs * rhs (C13_lehmer_guess_total, C13_lehmer_ext_loop_total, "
+              "C13_gcd_ext_in_place_total, C13_lehmer_ending_fits, C13_gcd_ext_src); hence Reduced::inv, division and every expression "
+              "tree hold with NO premise (C13_words_inv_src, C13_externals_src, C13_inv_div_src, C13_expr_src). Reducer's reduce_once / "
+              "reduce_negate of the multi-word ring run on word lists (sub_large, sub_large_dword, sub_large_ref_val with C01's borrow "
+              "kernels) and equal the value-level model (C13_words_reducer_once / _negate). (3) The extracted 64-bit models the oracle runs "
+              "- value level (C13_run_*), word lists with the real kernels (C13_hrun_*), inverse / division with the gcd code of the source "
+              "(C13_hrun_inv_src, C13_hrun_div_src, C13_hrun_gcd_probe) and the Reducer helpers on words (C13_hrun_rd_lin) - are proved equal "
+              "to the specification for all inputs. Regenerated from the Rust sources on every run and proved over the generated "
+              "definitions (C13_gen_*): window-length selection of large::pow, table size and first bit, comparison methods, long-product "
+              "switches, units, the list of primitive IntoRing impls.")
+LEVEL_NOTE = ("Trusted: Coq kernel, extraction (FastZ.v directives), zarith, harness. No external function is left by contract. Modelled at "
+              "value level only (not on word lists): the inside of gcd_ext_in_place - the word loops lehmer_step / lehmer_ext_step, the "
+              "re-slicing of the cofactor buffers in the Euclidean step (C12 round 4 models and proves lehmer_step / the aligned leading "
+              "words; it found and repaired in /repo 1be8c4c a defect of exactly that re-slicing, reachable through Reduced::inv, after "
+              "this check's totality proof had shown that the cofactor order t0 > t1 does occur - the value-level model used here says "
+              "what the repaired code does), UBig + - << inside the Reducer helpers (C01), clone_from. The word-level models were NOT run "
+              "against the force_bits=32 build (they are proved for every w >= 8 but executed at w = 64 only). Montgomery form: not used by "
+              "dashu (plain division by the normalised divisor with a precomputed reciprocal) - nothing to model; Reduced::pow takes an "
+              "unsigned exponent (no negative exponents), exponent 0 and modulus 1 are covered by C13_asis_pow / C13_run_pow. Primitive "
+              "machine arithmetic (u128 widening multiplication, %, shifts) is taken at its mathematical meaning. Compared only (not "
+              "proved): that the Rust code is what the models transcribe - 12000 generated + corpus cases per run against the "
+              "specification and against ALL as-is instances (asis=same needs every one; path= says which ran, +gcd-word / gcd-dword / "
+              "gcd-lehmer which extended-gcd branch); fragments the translator cannot parse fall back to this comparison alone.")
+TECHNIQUE = "Coq proof of value-level and word-level as-is models (representation invariant, refinement, generic windowed exponentiation, num-modular / C01 / C02 kernels transcribed, C12's Lehmer extended gcd proved total with bounded cofactors, fragments regenerated from the source) + extracted-spec correspondence run against three as-is instances"
 RULE = ("cases = operation (every call form: by value / by reference / assigning, ConstDivisor::new / from_word / from_dword incl. a zero "
         "modulus, UBig / IBig / every primitive type, Reducer trait) x modulus from {1, 2, 2^k, 2^k+-1 at k = 63, 64, 65, 127, 128, 129, "
         "word-aligned and unaligned single / double / multi-word (3..33 words), even multi-word, low words zero} x operands of both signs "
@@ -106,7 +113,7 @@ RULE = ("cases = operation (every call form: by value / by reference / assigning
         "low words, all ones, low words zero, random multi-word) with the residue 1, 2, 3+ words long (the three extended-gcd branches) - "
         "each through Reduced and through the Reducer trait, each operand also as a negative / larger representative of its residue. "
         "A case is non-trivial when the oracle evaluated the Coq specification on it; distinct = distinct case texts.")
-EXPLANATION = ("Theorems (coq/props/C13.v, 81 pinned): for every word size >= 2 and every modulus m >= 1 the as-is model of "
+EXPLANATION = ("Theorems (coq/props/C13.v, 99 pinned): for every word size >= 2 and every modulus m >= 1 the as-is model of "
                "ConstDivisor::new/reduce/residue, + - * neg dbl sqr ==, pow, inv, div and of the Reducer impl returns the residue the "
                "mathematics demands (representation invariant raw = (x mod m) << shift preserved by every operation, residues in [0, m), "
                "inverse exactly for units, division = div_spec, different rings panic, a zero modulus is the DivideBy0 panic, no debug "
@@ -114,7 +121,8 @@ EXPLANATION = ("Theorems (coq/props/C13.v, 81 pinned): for every word size >= 2 
                "(externals_ok) and with num-modular transcribed and proved (C13_nm_*); the word-level layer (C13_words_*) proves "
                "ConstLargeDivisor::new, rem_large / rem_repr / from_ubig / IntoRing, is_valid, the carry / borrow kernels, mul_normalized / "
                "sqr_normalized, the sliding-window pow and inv_large's buffer handling on word lists against the value-level model, with "
-               "C01's multiplication and C02's division models plugged in and no contract left except the multi-word extended gcd; "
+               "C01's multiplication and C02's division models plugged in; the multi-word extended gcd is C12's as-is Lehmer model, proved "
+               "total here with cofactors that fit their buffers (round 4), so no contract is left anywhere; "
                "binary and sliding-window exponentiation are proved for any carrier closed under a power relation; both extracted 64-bit "
                "models the oracle runs are proved equal to the specification for all inputs (C13_run_*, C13_hrun_*); fragments of the "
                "source (window-length selection, comparison methods, product-length switches, units, IntoRing impls) are regenerated on "
@@ -125,10 +133,10 @@ TRUSTED_BASE = [
     "Coq 8.16.1 kernel (coqc; vm_compute only in closed Examples and in the stated finite domain of C13_gen_window_table: bit lengths 2..4096)",
     "extraction: ExtrOcamlBasic + ExtrOcamlZBigInt + the Extract Constant directives of coq/extract/FastZ.v",
     "OCaml 4.13.1 + zarith 1.12, oracle/common.ml, oracle/driver_c13.ml; Rust harness harness/src/bin/c13.rs",
-    "contract (hypothesis of C13_words_inv_lehmer_only / C13_externals_lehmer_only) for gcd::gcd_ext_in_place (Lehmer) on values of three and more "
-    "words, used by inv / division of the multi-word ring only; gcd_ext_word / gcd_ext_dword are transcribed and proved over C12's as-is model of "
-    "the primitive ExtendedGcd (GrlModel.prim_gcd_ext_asis)",
-    "that the Gallina transcriptions (ModRingModel.v, ModRingWords.v, ModRingConv.v, ModRingNumModularDefs.v; C01's RingMul.v, C02's DivWordModel.v / "
+    "C12's value-level as-is model of gcd_ext_in_place (GrlLehmer.v; partial correctness GrlLehmerProof.v, aligned leading words "
+    "GrlLehmerTopProof.v) - imported, its totality and cofactor bounds are proved here (ModRingLehmerGuess.v, ModRingLehmerProofs.v); the "
+    "word loops inside gcd_ext_in_place (lehmer_step, lehmer_ext_step, cofactor buffer slices) are C12's subject, not modelled here",
+    "that the Gallina transcriptions (ModRingModel.v, ModRingWords.v, ModRingConv.v, ModRingNumModularDefs.v, ModRingGcdSmall.v, ModRingReducerWords.v, GrlLehmer.v; C01's RingMul.v, C02's DivWordModel.v / "
     "DivNumModular.v) say what the Rust sources say - checked by the correspondence run, and for the regenerated fragments by "
     "tools/translate_c13_r3.py (regex / tiny expression grammar over modular/{pow,add,mul,repr,reducer,convert}.rs; the reading of `<<` as a "
     "multiplication by a power of two, of usize arithmetic as exact, of WORD_BITS.min(usize::BIT_SIZE) as the word size are hand-written semantics); "
@@ -276,6 +284,37 @@ def gen_exp(rng, tier):
         return v
     bits = rng.choice([129, 160, 192, 193, 256, 320] + ([640, 1300] if tier == "thorough" else []))
     return rng.bits(bits) | (1 << (bits - 1))
+
+
+def gcd_shape_operand(rng, m):
+    """operands that steer the Lehmer extended gcd of inv_large (modulus = lhs, residue = rhs) through its branches: equal
+    leading words (the guess fails: Euclidean step with a one-word quotient), quotients that are all 1 (golden ratio), a
+    first quotient of exactly / about one word, residues a few words shorter than the modulus, residues of exactly 3 words"""
+    nb = m.bit_length()
+    k = rng.below(9)
+    if k == 0:
+        v = m - rng.bits(rng.range(1, max(2, nb - 1))) - 1                 # same leading words
+    elif k == 1:
+        v = (m * 0x9E3779B97F4A7C15F39CC0605CEDC834) >> 128                # m / phi: every quotient is 1
+        v += rng.choice([0, 1, -1, rng.bits(64)])
+    elif k == 2:
+        q = rng.choice([2, 3, (1 << 63) - 1, 1 << 63, (1 << 63) + 1, (1 << 64) - 1, 1 << 64, (1 << 64) + 1, rng.bits(64) | 1])
+        v = m // q + rng.choice([0, 1, -1, rng.bits(32)])                  # first quotient q
+    elif k == 3:
+        v = rng.bits(max(130, nb - W * rng.range(1, 3)))                   # one to three words shorter
+    elif k == 4:
+        v = rng.bits(rng.range(129, 192)) | (1 << 128)                     # exactly three words: the Lehmer loop ends soon
+    elif k == 5:
+        v = (m >> 1) + rng.choice([0, 1, -1, rng.bits(W), -rng.bits(W)])   # quotient 2, remainder small
+    elif k == 6:
+        top = m >> max(0, nb - W)                                          # equal top word, everything below random
+        v = (top << max(0, nb - W)) | rng.bits(max(1, nb - W))
+    elif k == 7:
+        v = m - (m >> rng.range(1, W + 2))                                 # m (1 - 2^-j)
+    else:
+        v = rng.bits(nb)
+    v %= m
+    return v if v > 0 else 1
 
 
 def ctor_for(rng, m):
@@ -610,6 +649,17 @@ def gen_cases(rng, tier, n):
         if rng.chance(1, 400):
             out.append("new0 %s" % rng.choice(["n", "w", "d", "r"]))
             continue
+        if rng.chance(1, 150):
+            # moduli around MIN_DWORD_GUESS_LEN = 300 words: lehmer_guess_dword / highest_dword_normalized run from 300 words on
+            nwh = rng.choice([298, 299, 300, 300, 301, 302, 305])
+            mh = rng.bits(W * (nwh - 1) + rng.choice([1, 33, 64, 64])) | (1 << (W * (nwh - 1))) | rng.below(2)
+            ah = gcd_shape_operand(rng, mh)
+            if rng.chance(1, 4):
+                ah *= rng.choice([3, 5, 1 << 64, (1 << 64) + 1])
+                mh *= 3
+            out.append(rng.choice(["inv n %s %s" % (hx(mh), hx(ah)), "r_inv %s %s" % (hx(mh), hx(ah % mh)),
+                                   "div %s n %s %s %s" % (rng.choice(forms), hx(mh), hx(rng.bits(200)), hx(ah))]))
+            continue
         if k < 10:
             if rng.chance(1, 3):
                 ty = rng.choice(sorted(PRIMS))
@@ -627,6 +677,8 @@ def gen_cases(rng, tier, n):
         elif k < 44:
             out.append("mul %s %s %s %s %s" % (rng.choice(forms), c, hx(m), hx(a), hx(b)))
         elif k < 52:
+            if m.bit_length() > 2 * W and rng.chance(1, 3):
+                b = gcd_shape_operand(rng, m)
             out.append("div %s %s %s %s %s" % (rng.choice(forms), c, hx(m), hx(a), hx(b)))
         elif k < 56:
             out.append("neg %s %s %s %s" % (rng.choice(["v", "r"]), c, hx(m), hx(a)))
@@ -637,6 +689,8 @@ def gen_cases(rng, tier, n):
         elif k < 75:
             out.append("pow %s %s %s %s" % (c, hx(m), hx(a), hx(gen_exp(rng, tier))))
         elif k < 81:
+            if m.bit_length() > 2 * W and rng.chance(1, 2):
+                a = gcd_shape_operand(rng, m)
             out.append("inv %s %s %s" % (c, hx(m), hx(a)))
         elif k < 83:
             out.append("eq %s %s %s %s" % (c, hx(m), hx(a), hx(rng.choice([a, a + m, a - m, b, a + 1]))))
